@@ -224,7 +224,7 @@ class RowNodeGroup:
             elif condition.value.lower() == "expired":
                 exit_node.update_expired_exit(destination_uuid)
             else:
-                LOGGER.error(
+                LOGGER.critical(
                     "Condition from start_new_flow must be 'Completed' or 'Expired'."
                 )
             return
@@ -239,7 +239,7 @@ class RowNodeGroup:
             elif condition.value.lower() == "failure":
                 exit_node.update_failure_exit(destination_uuid)
             else:
-                LOGGER.error(
+                LOGGER.critical(
                     "Condition from call_webhook/transfer_airtime must be "
                     "'Success' or 'Failure'."
                 )
@@ -532,7 +532,7 @@ class FlowParser:
             property = row.type.replace("set_contact_", "")
 
             if property not in ["channel", "language", "name", "status", "timezone"]:
-                LOGGER.error(f"Unknown operation set_contact_{property}.")
+                LOGGER.critical(f"Unknown operation set_contact_{property}.")
 
             return SetContactPropertyAction(property, row.mainarg_value)
         elif row.type in [
@@ -546,7 +546,7 @@ class FlowParser:
         ]:
             return None
         else:
-            LOGGER.error(f"Row type {row.type} not implemented")
+            LOGGER.critical(f"Row type {row.type} not implemented")
 
     def _get_or_create_group(self, name, uuid=None):
         # TODO: support lists of groups
